@@ -9,6 +9,7 @@ import (
 	"encoding/json"
 	"fmt"
 	"os"
+	"os/exec"
 	"path/filepath"
 	"runtime"
 	"sort"
@@ -249,6 +250,9 @@ func (r *Report) Finish() int {
 		return 1
 	}
 	dir := filepath.Join(Root(), "evidence")
+	if d := os.Getenv("VERIF_EVIDENCE_DIR"); d != "" {
+		dir = d // runs against deliberately broken trees (bin/seedtest.sh) must not overwrite the evidence of the real tree
+	}
 	_ = os.MkdirAll(dir, 0o755)
 	b, err := json.MarshalIndent(ev, "", " ")
 	if err != nil {
@@ -276,6 +280,9 @@ func (r *Report) Finish() int {
 		return 0
 	}
 	rdir := filepath.Join(Root(), "replays")
+	if d := os.Getenv("VERIF_EVIDENCE_DIR"); d != "" {
+		rdir = filepath.Join(d, "replays")
+	}
 	_ = os.MkdirAll(rdir, 0o755)
 	for i, v := range r.Violations {
 		if i >= 5 {
@@ -347,9 +354,42 @@ func LoadReplay(path string) *ReplayReq {
 
 // ---------------------------------------------------------------- variant binaries
 
-// SubRun is set when this process is a variant build (one constant of the code under test changed
-// through the overlay) started by the normal check to contribute sub-runs to its report.
+// SubRun is set when this process is a variant build (size thresholds of the code under test
+// scaled down through the overlay); a variant executes its own sub-runs (names prefixed with
+// VariantPrefix) and, when started with --sub, dumps its report for the normal check to merge.
 var SubRun bool
+
+// SubDump is set together with SubRun when the parent asked for a dump (--sub).
+var SubDump bool
+
+const VariantPrefix = "small/"
+
+// RunVariant starts the small-thresholds build of this binary (if it was built) for the same
+// property and tier and merges what it reports.
+func (r *Report) RunVariant() {
+	if Replay != nil || SubRun {
+		return
+	}
+	variant := os.Args[0] + ".small"
+	if _, err := os.Stat(variant); err != nil {
+		r.Set("small_thresholds_variant", "not built")
+		return
+	}
+	out, err := exec.Command(variant, r.Property, "--sub", string(r.Tier)).Output()
+	if err != nil {
+		HarnessError("small-thresholds variant: %v", err)
+	}
+	r.Merge("small thresholds: ", out)
+	r.Assumption("sub-runs prefixed '" + VariantPrefix + "' come from a second build in which the size thresholds util.BatchSize (256) and PruneBelowVersion's maxPruneNodes (1000) are 2 (two constants changed through the build overlay, nothing else differs), so that the bounded histories cross them")
+}
+
+// End finishes a report: a variant process asked for a dump prints it, everything else goes through Finish.
+func (r *Report) End() int {
+	if SubDump {
+		return r.Dump()
+	}
+	return r.Finish()
+}
 
 type subDump struct {
 	Cov        map[string]any
